@@ -23,6 +23,9 @@ SPELL = {
 PENDING = ('DECL', 'DECLITEM', 'IFC', 'IFC2', 'WHC', 'WHC2', 'FORV', 'FORIN', 'FORR', 'FORL', 'CSE0', 'CSW', 'CSV0', 'CST0')
 
 
+NAME_SPELLINGS = ['r.end', 't.begin', 'x.case', 'y.loop', 'z.if', '"end"', 'q.declare', 'n.for', '`end`', 'w.while']
+
+
 class Ref:
     def __init__(self, max_depth, plain_only=False, semicolon_in_parens=False):
         self.D = max_depth
@@ -326,6 +329,9 @@ def render(events, style=0):
     parts = []
     for i, ev in enumerate(events):
         w = SPELL[ev]
+        if style == 2 and ev == 'name':
+            # names that end in (or are, quoted) block keywords must still be names
+            w = NAME_SPELLINGS[i % len(NAME_SPELLINGS)]
         if style == 1 and ev not in ('name',):
             w = w.upper()
         parts.append(w)
